@@ -77,9 +77,9 @@ func weighted(rng *core.Rng, w []int) int {
 
 var r3Components = map[string]string{
 	"storage.BadgerStore (real Badger v4 fork, files on tmpfs)": "real",
-	"common transaction/snapshot encoding":                       "real",
-	"kernel, p2p":                                                "not involved in this rig",
-	"restart":                                                    "store closed and reopened on the same directory; cache-lost variant deletes the un-synced cache DB directory",
+	"common transaction/snapshot encoding":                      "real",
+	"kernel, p2p":                                               "not involved in this rig",
+	"restart":                                                   "store closed and reopened on the same directory; cache-lost variant deletes the un-synced cache DB directory",
 }
 
 var r3Assume = []string{"A1 Badger commit atomic and durable at return", "A3 overlap finer than one Store call equals a serial order or ErrConflict (store mutex + Badger SSI)"}
